@@ -33,9 +33,16 @@ import (
 var fset = token.NewFileSet()
 
 var (
-	rrRe        = regexp.MustCompile(`^(\w+) = \((\w+) \+ 1\) % n$`)
-	inputIdxRe  = regexp.MustCompile(`\w+ := dec\.inputs\[\w+\]`)
-	outputIdxRe = regexp.MustCompile(`\w+ := dec\.outputs\[\w+\]`)
+	rrRe         = regexp.MustCompile(`^(\w+) = \((\w+) \+ 1\) % n$`)
+	inputIdxRe   = regexp.MustCompile(`\w+ := dec\.inputs\[\w+\]`)
+	outputIdxRe  = regexp.MustCompile(`\w+ := dec\.outputs\[\w+\]`)
+	rangeRe      = regexp.MustCompile(`for \w+ := range \w+ \{`)
+	deferCloseRe = regexp.MustCompile(`defer close\(\w+\)`)
+	closeRangeRe = regexp.MustCompile(`for _, (\w+) := range dec\.inputs \{ close\((\w+)\) \}`)
+	errRetRe     = regexp.MustCompile(`if \w+\.Err != nil \{ return \}`)
+	cdataSetRe   = regexp.MustCompile(`dec\.cData = \w+`)
+	retObjRe     = regexp.MustCompile(`return \w+, dec\.cData\.Err`)
+	eofCondRe    = regexp.MustCompile(`^\w+\.Err == io\.EOF$`)
 )
 
 func src(n ast.Node) string {
@@ -84,18 +91,148 @@ func coqStrs(l []string) string {
 	return "[" + strings.Join(q, "; ") + "]"
 }
 
-// goroutine bodies (func literals started with `go`) inside a function, in source order
-func goBodies(fd *ast.FuncDecl) []*ast.BlockStmt {
+// goroutine bodies inside a function, in source order: func literals started with `go`, or
+// `go recv.method(...)` where method is declared in the same file (its body is used)
+func goBodies(file *ast.File, fd *ast.FuncDecl) []*ast.BlockStmt {
 	var out []*ast.BlockStmt
 	ast.Inspect(fd.Body, func(n ast.Node) bool {
 		if g, ok := n.(*ast.GoStmt); ok {
-			if fl, ok := g.Call.Fun.(*ast.FuncLit); ok {
-				out = append(out, fl.Body)
+			switch f := g.Call.Fun.(type) {
+			case *ast.FuncLit:
+				out = append(out, f.Body)
+			case *ast.SelectorExpr:
+				if m := anyMethod(file, f.Sel.Name); m != nil {
+					out = append(out, m.Body)
+				}
 			}
 		}
 		return true
 	})
 	return out
+}
+
+// anyMethod: a method (any receiver) or function of that name in the file
+func anyMethod(f *ast.File, name string) *ast.FuncDecl {
+	for _, d := range f.Decls {
+		if fd, ok := d.(*ast.FuncDecl); ok && fd.Name.Name == name {
+			return fd
+		}
+	}
+	return nil
+}
+
+// intConsts: package-level integer constants given by literals
+func intConsts(f *ast.File) map[string]string {
+	out := map[string]string{}
+	for _, d := range f.Decls {
+		gd, ok := d.(*ast.GenDecl)
+		if !ok || gd.Tok != token.CONST {
+			continue
+		}
+		for _, sp := range gd.Specs {
+			vs := sp.(*ast.ValueSpec)
+			for i, n := range vs.Names {
+				if i < len(vs.Values) {
+					if lit, ok := vs.Values[i].(*ast.BasicLit); ok && lit.Kind == token.INT {
+						out[n.Name] = lit.Value
+					}
+				}
+			}
+		}
+	}
+	return out
+}
+
+// chanRoles maps local channel variables to what they denote, from their defining assignment or
+// range clause anywhere in the given scopes: dec.inputs[_], dec.outputs[_], make(chan T, _).
+func chanRoles(skip map[ast.Node]bool, scopes ...ast.Node) map[string]string {
+	roles := map[string]string{}
+	role := func(e ast.Expr) string {
+		t := src(e)
+		switch {
+		case strings.HasPrefix(t, "dec.inputs["):
+			return "dec.inputs[_]"
+		case strings.HasPrefix(t, "dec.outputs["):
+			return "dec.outputs[_]"
+		case strings.HasPrefix(t, "make(chan "):
+			return strings.TrimSuffix(strings.SplitN(strings.TrimPrefix(t, "make("), ",", 2)[0], ")")
+		}
+		return ""
+	}
+	for _, sc := range scopes {
+		if sc == nil {
+			continue
+		}
+		ast.Inspect(sc, func(n ast.Node) bool {
+			if n != nil && skip[n] {
+				return false
+			}
+			switch x := n.(type) {
+			case *ast.AssignStmt:
+				if len(x.Lhs) == 1 && len(x.Rhs) == 1 {
+					if id, ok := x.Lhs[0].(*ast.Ident); ok {
+						if r := role(x.Rhs[0]); r != "" {
+							roles[id.Name] = r
+						}
+					}
+				}
+			case *ast.RangeStmt:
+				if id, ok := x.Value.(*ast.Ident); ok && x.Value != nil {
+					switch src(x.X) {
+					case "dec.outputs":
+						roles[id.Name] = "dec.outputs[_]"
+					case "dec.inputs":
+						roles[id.Name] = "dec.inputs[_]"
+					}
+				}
+			}
+			return true
+		})
+	}
+	return roles
+}
+
+// canonical rendering of a channel operand / a comm clause: locals are replaced by their role,
+// the transmitted value and the receiving variable are dropped
+func chanName(e ast.Expr, roles map[string]string) string {
+	if id, ok := e.(*ast.Ident); ok {
+		if r, ok := roles[id.Name]; ok {
+			return r
+		}
+	}
+	t := src(e)
+	if strings.HasPrefix(t, "dec.inputs[") {
+		return "dec.inputs[" + strings.TrimSuffix(strings.TrimPrefix(t, "dec.inputs["), "]") + "]"
+	}
+	return t
+}
+
+func canonComm(st ast.Stmt, roles map[string]string) string {
+	recv := func(e ast.Expr) (string, bool) {
+		if u, ok := e.(*ast.UnaryExpr); ok && u.Op == token.ARROW {
+			c := src(u.X)
+			if strings.HasSuffix(c, ".Done()") {
+				return "done " + strings.TrimSuffix(c, ".Done()"), true
+			}
+			return "recv " + chanName(u.X, roles), true
+		}
+		return "", false
+	}
+	switch x := st.(type) {
+	case *ast.SendStmt:
+		return "send " + chanName(x.Chan, roles)
+	case *ast.ExprStmt:
+		if r, ok := recv(x.X); ok {
+			return r
+		}
+	case *ast.AssignStmt:
+		if len(x.Rhs) == 1 {
+			if r, ok := recv(x.Rhs[0]); ok {
+				return r
+			}
+		}
+	}
+	return "? " + src(st)
 }
 
 func contains(n ast.Node, sub string) bool { return n != nil && strings.Contains(src(n), sub) }
@@ -118,7 +255,7 @@ func main() {
 		fmt.Fprintln(os.Stderr, "translator pipeline: decoder.Start not found")
 		os.Exit(1)
 	}
-	bodies := goBodies(start)
+	bodies := goBodies(dec, start)
 	// classify goroutines: worker (ranges over input), reader (calls readFileBlock), serializer (sends on dec.serializer)
 	var worker, reader, ser *ast.BlockStmt
 	for _, g := range bodies {
@@ -127,7 +264,7 @@ func main() {
 			ser = g
 		case contains(g, "readFileBlock"):
 			reader = g
-		case contains(g, "range input"):
+		case rangeRe.MatchString(src(g)):
 			worker = g
 		}
 	}
@@ -135,10 +272,23 @@ func main() {
 
 	// 0. the blocking operations of each goroutine: every select with its cases, every channel
 	// operation outside a select, and any use of timers
+	// roles of local channel variables as seen from goroutine g: the enclosing Start (without the
+	// other goroutines' bodies), then g's own body
+	rolesFor := func(g *ast.BlockStmt) map[string]string {
+		skip := map[ast.Node]bool{}
+		for _, o := range bodies {
+			if o != g {
+				skip[o] = true
+			}
+		}
+		return chanRoles(skip, start, g)
+	}
+	roles := rolesFor(ser)
 	selects := func(g *ast.BlockStmt) (sel []string, bare []string) {
 		if g == nil {
 			return []string{"?"}, []string{"?"}
 		}
+		roles := rolesFor(g)
 		inSelect := map[ast.Node]bool{}
 		ast.Inspect(g, func(n ast.Node) bool {
 			if s, ok := n.(*ast.SelectStmt); ok {
@@ -148,8 +298,7 @@ func main() {
 					if cc.Comm == nil {
 						cases = append(cases, "default")
 					} else {
-						cases = append(cases, src(cc.Comm))
-						inSelect[cc.Comm] = true
+						cases = append(cases, canonComm(cc.Comm, roles))
 						ast.Inspect(cc.Comm, func(m ast.Node) bool {
 							if m != nil {
 								inSelect[m] = true
@@ -167,11 +316,11 @@ func main() {
 			switch x := n.(type) {
 			case *ast.SendStmt:
 				if !inSelect[x] {
-					bare = append(bare, src(x))
+					bare = append(bare, canonComm(x, roles))
 				}
 			case *ast.UnaryExpr:
 				if x.Op == token.ARROW && !inSelect[x] {
-					bare = append(bare, src(x))
+					bare = append(bare, canonComm(&ast.ExprStmt{X: x}, roles))
 				}
 			}
 			return true
@@ -186,7 +335,11 @@ func main() {
 		def(g.name+"_selects", "list string", coqStrs(sel), "every select of the "+g.name+" goroutine: its cases, sorted, joined by |")
 		def(g.name+"_bare_chan_ops", "list string", coqStrs(bare), "channel sends/receives of the "+g.name+" goroutine outside any select")
 	}
-	def("start_uses_timers", "bool", coqBool(contains(start, "time.")), "decoder.Start mentions package time (timers, timeouts)")
+	usesTime := contains(start, "time.")
+	for _, g := range bodies {
+		usesTime = usesTime || contains(g, "time.")
+	}
+	def("start_uses_timers", "bool", coqBool(usesTime), "decoder.Start or one of its goroutines mentions package time (timers, timeouts)")
 
 	// 1. reader loop
 	loopOp, lhs, rhs := "?", "?", "?"
@@ -210,8 +363,7 @@ func main() {
 	def("reader_loop_operands", "list string", coqStrs([]string{lhs, rhs}), "its operands")
 	def("reader_round_robin_count", "nat", fmt.Sprint(readerRR), "occurrences of `i = (i + 1) % n` in the reader (resume push + loop)")
 	def("reader_input_index", "bool", coqBool(inputIdxRe.MatchString(src(reader)) && contains(reader, "dec.inputs[0] <- iPair")), "loop sends to dec.inputs[i]; the first block of a resumed file goes to dec.inputs[0]")
-	def("reader_send_in_select", "bool", coqBool(contains(reader, "select { case input <- pair: case <-dec.ctx.Done(): }")), "the loop's send is a select with ctx.Done")
-	def("reader_closes_inputs", "bool", coqBool(contains(reader, "close(input)")), "deferred close of every input")
+	def("reader_closes_inputs", "bool", coqBool(closeRangeRe.MatchString(src(reader))), "deferred close of every input")
 
 	// 2. capacities
 	budget, budgetOK, capVar := "?", false, "?"
@@ -224,6 +376,10 @@ func main() {
 				if be, ok := r.(*ast.BinaryExpr); ok && be.Op == token.QUO && src(be.Y) == "n" {
 					if lit, ok := be.X.(*ast.BasicLit); ok && lit.Kind == token.INT {
 						budget, budgetOK, capVar = lit.Value, true, l
+					} else if id, ok := be.X.(*ast.Ident); ok {
+						if v, ok := intConsts(dec)[id.Name]; ok { // a named package constant
+							budget, budgetOK, capVar = v, true, l
+						}
 					}
 				}
 				if call, ok := r.(*ast.CallExpr); ok && src(call.Fun) == "make" && len(call.Args) == 2 {
@@ -258,41 +414,64 @@ func main() {
 	def("procs_clamped", "bool", coqBool(clamp), "if n < 1 { n = 1 }")
 
 	// 3. worker
-	def("worker_shape", "bool", coqBool(worker != nil && contains(worker, "for p := range input") && contains(worker, "defer close(output)") &&
-		contains(worker, "select { case output <- out: case <-dec.ctx.Done(): }")), "worker: range over input, select send/Done, deferred close(output)")
+	def("worker_shape", "bool", coqBool(worker != nil && rangeRe.MatchString(src(worker)) && deferCloseRe.MatchString(src(worker))), "worker: ranges over its input channel, deferred close of its output (its select is in worker_selects)")
 
 	// 4. serializer
 	serRR, serRecheck, serWrites, serExit := false, false, false, false
 	if ser != nil {
+		// the round-robin loop, in either form:
+		//   for i := 0; ; i = (i + 1) % n { output := dec.outputs[i]; BODY }
+		//   for { for _, output := range dec.outputs { BODY } }
+		var loopBody []ast.Stmt
 		ast.Inspect(ser, func(n ast.Node) bool {
-			if f, ok := n.(*ast.ForStmt); ok && f.Post != nil && rrRe.MatchString(src(f.Post)) && f.Init != nil && strings.HasSuffix(src(f.Init), ":= 0") {
-				serRR = true
-				// the re-check must sit between the receive select and the send select
-				stage := 0
-				for _, st := range f.Body.List {
-					switch s := st.(type) {
-					case *ast.SelectStmt:
-						if contains(s, "<-output") && stage == 0 {
-							stage = 1
-						} else if contains(s, "dec.serializer <- p") && stage == 2 {
-							stage = 3
-						}
-					case *ast.IfStmt:
-						if stage == 1 && src(s.Cond) == "dec.ctx.Err() != nil" && len(s.Body.List) == 1 && src(s.Body.List[0]) == "return" && s.Else == nil {
-							stage = 2
-						}
+			f, ok := n.(*ast.ForStmt)
+			if !ok || loopBody != nil {
+				return true
+			}
+			if f.Cond == nil && f.Post != nil && rrRe.MatchString(src(f.Post)) && f.Init != nil && strings.HasSuffix(src(f.Init), ":= 0") &&
+				outputIdxRe.MatchString(src(f.Body)) {
+				loopBody = f.Body.List
+			}
+			if f.Cond == nil && f.Post == nil && f.Init == nil && len(f.Body.List) == 1 {
+				if r, ok := f.Body.List[0].(*ast.RangeStmt); ok && src(r.X) == "dec.outputs" && r.Value != nil {
+					loopBody = r.Body.List
+				}
+			}
+			return true
+		})
+		serRR = loopBody != nil
+		// the re-check must sit between the receive select and the send select
+		stage := 0
+		for _, st := range loopBody {
+			switch x := st.(type) {
+			case *ast.SelectStmt:
+				cs := ""
+				for _, c := range x.Body.List {
+					if cc := c.(*ast.CommClause); cc.Comm != nil {
+						cs += canonComm(cc.Comm, roles) + ";"
 					}
 				}
-				serRecheck = stage == 3
+				if strings.Contains(cs, "recv dec.outputs[_]") && stage == 0 {
+					stage = 1
+				} else if strings.Contains(cs, "send dec.serializer") && stage == 2 {
+					stage = 3
+				}
+			case *ast.IfStmt:
+				if stage == 1 && src(x.Cond) == "dec.ctx.Err() != nil" && len(x.Body.List) == 1 && src(x.Body.List[0]) == "return" && x.Else == nil {
+					stage = 2
+				}
 			}
+		}
+		serRecheck = stage == 3
+		ast.Inspect(ser, func(n ast.Node) bool {
 			if a, ok := n.(*ast.AssignStmt); ok && strings.HasPrefix(src(a.Lhs[0]), "dec.cData") {
 				serWrites = true
 			}
 			return true
 		})
-		serExit = contains(ser, "close(dec.serializer)") && contains(ser, "dec.cancel()") && contains(ser, "if p.Err != nil { return }")
+		serExit = contains(ser, "close(dec.serializer)") && contains(ser, "dec.cancel()") && errRetRe.MatchString(src(ser))
 	}
-	def("ser_round_robin", "bool", coqBool(serRR && outputIdxRe.MatchString(src(ser))), "for i := 0; ; i = (i + 1) % n over dec.outputs[i]")
+	def("ser_round_robin", "bool", coqBool(serRR), "round robin over dec.outputs: for i := 0; ; i = (i + 1) % n { dec.outputs[i] } or for { for range dec.outputs }")
 	def("ser_recheck", "bool", coqBool(serRecheck), "if dec.ctx.Err() != nil { return } between the receive select and the send select")
 	def("ser_writes_cdata", "bool", coqBool(serWrites), "the serializer goroutine assigns to dec.cData")
 	def("ser_exit_shape", "bool", coqBool(serExit), "deferred close(dec.serializer) and dec.cancel(); return after forwarding a pair with Err != nil")
@@ -302,31 +481,27 @@ func main() {
 	var closedChecks []string
 	nextEOF := false
 	if next != nil {
+		okVar := "?"
 		ast.Inspect(next.Body, func(n ast.Node) bool {
-			if i, ok := n.(*ast.IfStmt); ok && src(i.Cond) == "!ok" {
-				for _, st := range i.Body.List {
-					switch s := st.(type) {
-					case *ast.IfStmt:
-						c := src(s.Cond)
-						if s.Init != nil {
-							c = src(s.Init) + "; " + c
-						}
-						closedChecks = append(closedChecks, c)
-					case *ast.ReturnStmt:
-						closedChecks = append(closedChecks, src(s))
-					}
-				}
+			if a, ok := n.(*ast.AssignStmt); ok && len(a.Lhs) == 2 && len(a.Rhs) == 1 && src(a.Rhs[0]) == "<-dec.serializer" {
+				okVar = src(a.Lhs[1])
 			}
-			if i, ok := n.(*ast.IfStmt); ok && src(i.Cond) == "cd.Err == io.EOF" {
+			return true
+		})
+		ast.Inspect(next.Body, func(n ast.Node) bool {
+			if i, ok := n.(*ast.IfStmt); ok && src(i.Cond) == "!"+okVar {
+				closedChecks = fallbackChain(dec, i.Body.List, 0)
+			}
+			if i, ok := n.(*ast.IfStmt); ok && eofCondRe.MatchString(src(i.Cond)) {
 				nextEOF = contains(i.Body, "dec.cData.Err = io.EOF") && contains(i.Body, "return nil, io.EOF")
 			}
 			return true
 		})
 	}
-	def("next_closed_checks", "list string", coqStrs(closedChecks), "what Next does when the ordered channel is closed, in order")
+	def("next_closed_checks", "list string", coqStrs(closedChecks), "the error Next reports when the ordered channel is closed: first non-nil of these, in order (normal form of early returns / fallback chains / helper methods)")
 	def("next_stores_eof", "bool", coqBool(nextEOF), "on the EOF pair: dec.cData.Err = io.EOF; return nil, io.EOF")
-	def("next_shape", "bool", coqBool(next != nil && contains(next, "for dec.cIndex >= len(dec.cData.Objects)") && contains(next, "dec.cData = cd") &&
-		contains(next, "dec.cIndex = 0") && contains(next, "return v, dec.cData.Err")), "loop over empty blocks, cData = cd, cIndex = 0, return v, cData.Err")
+	def("next_shape", "bool", coqBool(next != nil && contains(next, "for dec.cIndex >= len(dec.cData.Objects)") && cdataSetRe.MatchString(src(next)) &&
+		contains(next, "dec.cIndex = 0") && retObjRe.MatchString(src(next))), "loop over empty blocks, cData = cd, cIndex = 0, return v, cData.Err")
 
 	// 6. Scanner
 	scan := method(scn, "Scanner", "Scan")
@@ -399,7 +574,86 @@ func stmtsAre(fd *ast.FuncDecl, want ...string) bool {
 	return true
 }
 
-// errOrder lists, in order, condition -> result of the top-level statements of an Err method.
+// fallbackChain normalises "the first non-nil of e1, e2, ..." written as early returns
+//
+//	if e1 != nil { return [nil,] e1 }   /   if v := e1; v != nil { return [nil,] v }
+//
+// or as a fallback chain   v := e1; if v == nil { v = e2 }; ...; return [nil,] v
+// or as a call of an unexported helper method whose body has one of these forms.
+// Anything else yields an entry starting with "?".
+func fallbackChain(file *ast.File, stmts []ast.Stmt, depth int) []string {
+	var out []string
+	chainVar := ""
+	last := func(r *ast.ReturnStmt) ast.Expr {
+		if len(r.Results) == 0 {
+			return nil
+		}
+		return r.Results[len(r.Results)-1]
+	}
+	for _, st := range stmts {
+		switch x := st.(type) {
+		case *ast.IfStmt:
+			cond := src(x.Cond)
+			if x.Else != nil || len(x.Body.List) != 1 {
+				return append(out, "? "+src(x))
+			}
+			// v == nil { v = e }
+			if chainVar != "" && cond == chainVar+" == nil" {
+				if a, ok := x.Body.List[0].(*ast.AssignStmt); ok && len(a.Lhs) == 1 && src(a.Lhs[0]) == chainVar && len(a.Rhs) == 1 {
+					out = append(out, src(a.Rhs[0]))
+					continue
+				}
+				return append(out, "? "+src(x))
+			}
+			r, ok := x.Body.List[0].(*ast.ReturnStmt)
+			if !ok || last(r) == nil || !strings.HasSuffix(cond, " != nil") {
+				return append(out, "? "+src(x))
+			}
+			tested := strings.TrimSuffix(cond, " != nil")
+			if x.Init != nil { // if v := e; v != nil { return v }
+				a, ok := x.Init.(*ast.AssignStmt)
+				if !ok || len(a.Lhs) != 1 || len(a.Rhs) != 1 || src(a.Lhs[0]) != tested || src(last(r)) != tested {
+					return append(out, "? "+src(x))
+				}
+				out = append(out, src(a.Rhs[0]))
+			} else {
+				if src(last(r)) != tested {
+					return append(out, "? "+src(x))
+				}
+				out = append(out, tested)
+			}
+		case *ast.AssignStmt: // v := e1
+			if chainVar == "" && len(x.Lhs) == 1 && len(x.Rhs) == 1 {
+				chainVar = src(x.Lhs[0])
+				out = append(out, src(x.Rhs[0]))
+				continue
+			}
+			return append(out, "? "+src(x))
+		case *ast.ReturnStmt:
+			e := last(x)
+			if e == nil {
+				return append(out, "? "+src(x))
+			}
+			if chainVar != "" && src(e) == chainVar {
+				return out
+			}
+			if call, ok := e.(*ast.CallExpr); ok && len(call.Args) == 0 && depth < 3 {
+				if sel, ok := call.Fun.(*ast.SelectorExpr); ok && src(sel.X) == "dec" && !ast.IsExported(sel.Sel.Name) {
+					if m := anyMethod(file, sel.Sel.Name); m != nil {
+						return append(out, fallbackChain(file, m.Body.List, depth+1)...)
+					}
+				}
+			}
+			return append(out, src(e))
+		default:
+			return append(out, "? "+src(st))
+		}
+	}
+	return append(out, "? falls off the end")
+}
+
+// errOrder lists, in order, condition -> result of the top-level statements of an Err method;
+// an if chain and a tagless switch with the same tests normalise to the same list.
 func errOrder(fd *ast.FuncDecl) []string {
 	var out []string
 	if fd == nil {
@@ -413,6 +667,26 @@ func errOrder(fd *ast.FuncDecl) []string {
 				r = src(s.Body.List[0])
 			}
 			out = append(out, src(s.Cond)+" -> "+r)
+		case *ast.SwitchStmt:
+			if s.Tag != nil || s.Init != nil {
+				out = append(out, "?")
+				continue
+			}
+			for _, c := range s.Body.List {
+				cc := c.(*ast.CaseClause)
+				r := "?"
+				if len(cc.Body) == 1 {
+					r = src(cc.Body[0])
+				}
+				switch {
+				case cc.List == nil: // default
+					out = append(out, r)
+				case len(cc.List) == 1:
+					out = append(out, src(cc.List[0])+" -> "+r)
+				default:
+					out = append(out, "?")
+				}
+			}
 		case *ast.ReturnStmt:
 			out = append(out, src(s))
 		default:
